@@ -355,6 +355,25 @@ theorem fit_roundtrip (pix : List (ℝ × ℝ)) (lam : ℝ) (theta : Option ℝ)
       = (c "C10", c "C12", c "phi12", theta.getD 0) :=
   fit_roundtrip_lemma pix lam theta c hz hrank hθ1 hθ2 hC hdef h1 h2
 
+/-- **the extraction step is the translated source**: everything `fit_aberrations_from_shifts` does after
+`M_rotation, M_aberration = _torch_polar(M)` (rotation angle, wrap test with `remainder`, sign flip of the
+aberration matrix, symmetrisation, C10/C12/phi12), translated from the source, equals the extraction function the
+fit theorems are stated for — so `fit_extract_roundtrip(_flipped)`, `fit_roundtrip` and
+`fit_roundtrip_translated_polar` are statements about the code's own formulas. -/
+theorem extraction_is_translated (u p : M2 ℝ) :
+    fitExtractTranslated u p = fitExtract u p ∧ FIT_RESULT_KEYS = ["C10", "C12", "phi12", "rotation_angle"] :=
+  ⟨fitExtractTranslated_eq u p, by decide⟩
+
+/-- the grid rotation and the polar coordinates inside the lateral-shift model are the translated
+`_passively_rotate_grid` and `polar_coordinates` -/
+theorem lateral_shift_uses_translated (kx ky lam θ : ℝ) (c : String → ℝ) :
+    lateralShift kx ky lam (some θ) c =
+      (let k' := passively_rotate_grid kx ky θ
+       let kp := polar_coordinates k'.1 k'.2
+       let g := aberration_surface_cartesian_gradients (kp.1 * lam) kp.2 c
+       (g.1 / 2 / Real.pi, g.2 / 2 / Real.pi)) := by
+  simp only [lateralShift, rotateGrid]; num_real
+
 /-- **the translated `_torch_polar` computes the polar decomposition the model uses — the RIGHT factor**:
 for any svd routine that meets its specification at `m` (m = U·diag(S)·Vh, U and Vh orthogonal, S > 0), the pair
 the source builds, `(U @ Vh, Vh.T @ diag(S) @ Vh)`, equals the closed form `polar2 m` (hence, by
